@@ -523,7 +523,7 @@ class Exec:
                     if d == 0: break
             if re.search(r'::\w+::$', callee[:i]): mg = re.match(r'(.*)$', callee[i + 1:-1], re.S); base = callee[:i - 2]
         if mg:
-            impls = re.findall(r'_\d+: (impl [^,()]*(?:<[^()]*?>)?(?: \+ \w+)*)', f.sig)
+            impls = re.findall(r'_\d+: &?(?:mut )?(impl [^,()]*(?:<[^()]*?>)?(?: \+ \w+)*)', f.sig)
             for name, ty in zip(impls, split_top(mg.group(1))): sub[name] = ty
         if not f.impl:
             m = re.match(r'<(.*) as ([\w:]+)(?:<(.*)>)?>::\w+', callee)
